@@ -2,6 +2,13 @@
 """Prints the markdown table of kept seeded changes (DESIGN.md section 8) from seeded/*/meta.json."""
 import json, glob, os
 rows = []
+last = {}
+lp = os.path.join(os.path.dirname(os.path.abspath(__file__)), "seeded", "last_run.tsv")
+if os.path.exists(lp):
+    for l in open(lp):
+        f = l.rstrip("\n").split("\t")
+        if len(f) >= 4:
+            last[f[0]] = (f[2], f[3])
 for d in sorted(glob.glob(os.path.join(os.path.dirname(os.path.abspath(__file__)), "seeded", "*"))):
     mp = os.path.join(d, "meta.json")
     if not os.path.exists(mp):
@@ -13,4 +20,4 @@ print("|---|---|---|---|---|")
 for name, m in rows:
     first = m.get("caught_initially")
     first_s = "yes" if first else ("no - " + m.get("strengthening", "")) if first is not None else "n/a (hand-written)"
-    print(f"| `{name}` | {m['property']} | {m.get('needs','')} | {m.get('caught_by','see run_seeded.sh')} | {first_s} |")
+    print(f"| `{name}` | {m['property']} | {m.get('needs','')} | {m.get('caught_by', ("./check %s quick: %s" % (m['property'], last.get(name, ("?", ""))[1].strip())) if last.get(name, ("",))[0] == "yes" else "see run_seeded.sh")} | {first_s} |")
